@@ -367,7 +367,7 @@ func (c *C07) concurrentCallers(x *engine.Ctx) *engine.Violation {
 	}
 	calls := 0
 	for ci := 0; ci < ncall; ci++ {
-		n := 1 + t.Draw(3)
+		n := 2 + t.Draw(3)
 		for k := 0; k < n; k++ {
 			if len(valids) > 0 && t.Chance(1, 2) {
 				if j, ok := mkTwin(t.Pick(len(valids))); ok {
